@@ -77,6 +77,7 @@ struct ldb_versions_s {
   /* Opened lazily. */
   struct ldb_wfile_s *descriptor_file;
   struct ldb_writer_s *descriptor_log;
+  int descriptor_error; /* Set once an append to the MANIFEST failed. */
   ldb_version_t dummy_versions; /* Circular doubly-linked list of versions. */
   ldb_version_t *current;       /* == dummy_versions.prev */
 
